@@ -28,7 +28,10 @@ def seg_text():
 
 
 def item():
-    seg = st.builds(lambda t, s: {"t": t, "s": s}, seg_text(), st.one_of(st.none(), GS.style_spec(), GS.style_spec(), st.sampled_from(GS.PALETTE)))
+    negative = st.sampled_from([{"attrs": {"bold": False}, "color": None, "bgcolor": None, "link": None}, {"attrs": {"italic": False, "underline": False}, "color": None, "bgcolor": None, "link": None},
+                                {"attrs": {"bold": False}, "color": None, "bgcolor": None, "link": "https://n.example"}])
+    plus = st.one_of(st.none(), st.none(), st.none(), negative, st.sampled_from(GS.PALETTE), GS.style_spec(max_attrs=3))
+    seg = st.builds(lambda t, s, p: {"t": t, "s": s, "plus": p}, seg_text(), st.one_of(st.none(), GS.style_spec(), GS.style_spec(), st.sampled_from(GS.PALETTE)), plus)
     pr = st.builds(lambda segs, route: ["print", segs, route], st.lists(seg, min_size=1, max_size=6), st.sampled_from(["raw", "raw", "text", "print_style"]))
     ctl = st.sampled_from(CONTROLS).map(lambda k: ["ctl", k])
     return st.one_of(pr, pr, pr, ctl)
@@ -68,7 +71,7 @@ class Stream(Part):
         built = []
         for it in spec["items"]:
             if it[0] == "print":
-                built.append([(s["t"], sut(GS.build_style, s["s"]) if s["s"] else None, s["s"]) for s in it[1]])
+                built.append([(sg["t"], sut(GS.build_style, sg["s"]) if sg["s"] else None, sg["s"]) for sg in it[1]])
             else:
                 built.append(None)
         has_color = any(s and (s["color"] or s["bgcolor"]) for it in spec["items"] if it[0] == "print" for s in [x["s"] for x in it[1]])
@@ -116,7 +119,19 @@ class Stream(Part):
                         expected.append(("ctlseq", text))
                     continue
                 route = it[2]
-                if route == "raw":
+                if route == "raw" and any(sg.get("plus") is not None and sg["s"] for sg in it[1]):
+                    # "derived" history: write each segment on its own, then build base + plus *afterwards* (the base's codes are cached by then)
+                    # and write text in the derived style: it must carry its own codes
+                    styled = []
+                    for (t, base, sp), sg in zip(segs, it[1]):
+                        sut(con.print, Raw([Segment(t, base)]), end="")
+                        styled.append((t, sp))
+                        if sg.get("plus") is not None and base is not None:
+                            derived = sut(lambda: base + GS.build_style(sg["plus"]))
+                            sut(con.print, Raw([Segment(t or "d", derived)]), end="")
+                            styled.append((t or "d", GS.merge(sp, sg["plus"])))
+                    ctx.cls("derived-after-write")
+                elif route == "raw":
                     sut(con.print, Raw([Segment(t, s) for t, s, _ in segs]), end="")
                     styled = [(t, sp) for t, _, sp in segs]
                 elif route == "text":
